@@ -542,6 +542,17 @@ func ruleUnwindingLoop(c *core.Ctx) {
 				"PostCommitVolumes: copy of pcv[posting."+st.role+"][asset]", fmt.Sprintf("the %s move snapshots pcv[posting.%s] (copy=%v): each move must carry a copy of its own account's running volumes", st.role, snapRole, snapCopy))
 			c.Check(st.src == (st.role == "Source"), "FLOW/unwinding", fmt.Sprintf("%s:move-%s:is-source", key, st.role), pos(c, x),
 				"IsSource set exactly on the source move", fmt.Sprintf("IsSource=%v on the %s move", st.src, st.role))
+			// the move is dated like its transaction: insertion date and effective date are copied from
+			// it explicitly (the column defaults would stamp an imported move with the time of the import)
+			for field, want := range map[string]string{"InsertionDate": ".InsertedAt", "EffectiveDate": ".Timestamp", "TransactionID": ".ID"} {
+				v := fieldOfCompositeLit(x, field)
+				got := ""
+				if v != nil {
+					got = nospace(types.ExprString(v))
+				}
+				c.Check(v != nil && strings.HasSuffix(strings.TrimPrefix(got, "*"), want), "FLOW/unwinding", fmt.Sprintf("%s:move-%s:%s", key, st.role, field), pos(c, x),
+					field+" = tx"+want, fmt.Sprintf("the %s move does not take %s from the transaction (tx%s), it is %q: a move written while importing or replaying a log is dated by the database default (now) instead of the original date, and point-in-time reads of the copy differ from the source", st.role, field, want, got))
+			}
 			steps = append(steps, st)
 		case *ast.CallExpr:
 			if f := astx.Callee(info, x); f != nil && (f.Name() == "AddInput" || f.Name() == "AddOutput") && len(x.Args) == 3 {
